@@ -117,9 +117,11 @@ fn b_sll(r: &Rec, i: &mut Info) -> BR<(LinuxSllHeader, Vec<u8>)> {
         824 => LinuxSllProtocolType::NetlinkProtocolType(proto),
         778 => LinuxSllProtocolType::GenericRoutingEncapsulationProtocolType(proto),
         803 | 770 => LinuxSllProtocolType::Ignored(proto),
+        // which numbers are Linux "non standard" ether types comes from the harness' own table (if_ether.h,
+        // refdec/policy.rs), not from the crate's conversion - otherwise value and decoder would share it
         _ => match LinuxNonstandardEtherType::try_from(proto) {
-            Ok(v) => LinuxSllProtocolType::LinuxNonstandardEtherType(v),
-            Err(_) => LinuxSllProtocolType::EtherType(EtherType(proto)),
+            Ok(v) if crate::refdec::policy::sll_is_nonstandard_ether_type(proto) => LinuxSllProtocolType::LinuxNonstandardEtherType(v),
+            _ => LinuxSllProtocolType::EtherType(EtherType(proto)),
         },
     };
     i.variant = format!(
